@@ -377,7 +377,7 @@ HasStar(route) == route # <<>> /\ Last(route) = STAR
 Prefix(route) == IF HasStar(route) THEN SubSeq(route, 1, Len(route) - 1) ELSE route
 Expect(h, w, rel) == IF h = "file_path" THEN ExpectLiteral(w, rel) ELSE ExpectDecoding(w, rel)
 STATIC_NOSTAR == B("/static")
-RouteList == << B("/static/*"), B("/*"), <<SLASH, 100, 195, 188, 114, SLASH, STAR>> >>    \* the third is "/dür/*": a two-byte character in the prefix
+RouteList == << B("/static/*"), B("/*"), <<SLASH, 100, 195, 188, STAR>> >>    \* the third is "/dü*": a two-byte character ends the prefix
 RouteSet == {RouteList[i] : i \in 1..RouteN}
 \* the uri on which handler h sees relative path rel under `route` (serve_as_file_path takes the whole uri)
 UriFor(h, route, rel) == IF h = "file_path" THEN <<SLASH>> \o rel ELSE Prefix(route) \o rel
